@@ -58,7 +58,9 @@ class Run:
 
     def _on_division(self, d: Expr):
         if d.id not in self.divisors:
-            self.divisors[d.id] = (d, _site())
+            site = _site()
+            if site != "?":  # divisions executed by the real code (not those inside spec functions)
+                self.divisors[d.id] = (d, site)
 
     # ---- hypotheses
     def assume(self, h, tag: str = ""):
